@@ -1115,12 +1115,27 @@ package decoder
 //@   ensures err == nil && res != nil ==> len(res) >= 0 && len(res) <= cap(res)
 //@   assigns M, Stream.buf, Stream.bufSize, Stream.length, Stream.cursor, Stream.offset, Stream.filledBuffer, Stream.allRead, Stream.readErr
 
+// The text of a ,string member or of a non-string map key is one whole value: accepted only if the inner
+// decoder stopped exactly at the terminator and the text does not begin with white space (C16: "1.5", "1x",
+// " 1", "1 " are not integers).
+//@ func (*wrappedStringDecoder).validateWhole(d, b, end, offset) (err)
+//@   props C16 C07 C06 C05
+//@   ensures err == nil ==> end == len(b) - 1
+//@   ensures err == nil && len(b) > 1 ==> b[0] != ' ' && b[0] != 9 && b[0] != 10 && b[0] != 13
+//@   ensures len(b) >= 1 && end == len(b) - 1 && (len(b) > 1 ==> b[0] != ' ' && b[0] != 9 && b[0] != 10 && b[0] != 13) ==> err == nil
+//@   assigns nothing
+
 //@ func (*wrappedStringDecoder).Decode(d, ctx, cursor, depth, p) (c, err)
-//@   props C07 C06
+//@   props C07 C06 C16
 //@   requires d != nil && d.stringDecoder != nil && d.dec != nil && ctx != nil && bufOK(ctx.Buf, cursor)
 //@   requires d.isPtrType ==> dsize(dataOf(d.dec)) == 8
 //@   requires region(p, dsize(dataOf(d.dec))) && dstApart(p, dsize(dataOf(d.dec)), ctx.Buf) && dsize(dataOf(d.dec)) >= 1
 //@   ensures err == nil ==> cursor < c && c < len(old(ctx.Buf)) && ctx.Buf == old(ctx.Buf)
+// success means that the inner decoder consumed the whole text of the string (C16: no trailing fraction, exponent, garbage)
+//@   ghost innerEnd := end
+//@   ghost textLen := len(bytes)
+//@   ghost body := ptrOf(bytes)
+//@   ensures[C16] err == nil && body != 0 ==> innerEnd == textLen - 1
 //@   assigns all
 
 //@ func (*wrappedStringDecoder).DecodeStream(d, s, depth, p) (err)
